@@ -505,6 +505,41 @@ fn run_lut<T: L>(toks: &[&str]) -> Option<String> {
             let (c, p, m) = l.npncanon();
             format!("ok {} {} {}", sh(&c), show_nats(&p), m)
         }
+        ("npnorbit", 4) => {
+            // NPN canonization of f and of three images of f under random permutations and
+            // complementations (built with the crate's own swap / flip / not): one orbit, one
+            // representative.  For sizes whose walk the model cannot follow in the quick tier
+            // (n = 8: 20 million steps) - judged by the oracle only
+            let l: T = mk(&parse_tab(t[2])?);
+            let n = l.nv();
+            let mut st = u64::from_str_radix(t[3], 16).ok()?;
+            let mut next = || {
+                st = st.wrapping_mul(6364136223846793005).wrapping_add(1442695040888963407);
+                (st >> 33) as usize
+            };
+            let (c, p, m) = l.npncanon();
+            let mut out = format!("ok {} {} {}", sh(&c), show_nats(&p), m);
+            for _ in 0..3 {
+                let mut g = l.clone();
+                for i in (1..n).rev() {
+                    let j = next() % (i + 1);
+                    if i != j {
+                        g = g.swap_cp(i, j);
+                    }
+                }
+                for i in 0..n {
+                    if next() % 2 == 1 {
+                        g = g.flip_cp(i);
+                    }
+                }
+                if next() % 2 == 1 {
+                    g = g.not_form(0);
+                }
+                let (cg, _, _) = g.npncanon();
+                out.push_str(&format!(" {} {}", sh(&g), sh(&cg)));
+            }
+            out
+        }
         ("decomp", 4) => {
             let l: T = mk(&parse_tab(t[2])?);
             format!("ok {}", show_decomp(&l.decomp(us(t[3])?)))
@@ -545,7 +580,46 @@ fn run_lut<T: L>(toks: &[&str]) -> Option<String> {
         ("eq", 4) => {
             let a: T = mk(&parse_tab(t[2])?);
             let b: T = mk(&parse_tab(t[3])?);
-            format!("ok {}", show_bool(a == b))
+            let fresh = a == b;
+            // the answer must not depend on what was done to the operands through `&self` before:
+            // one operand hashed, printed, cloned, compared (seed C02-l: a digest cached inside the
+            // table by `hash` and seen by the derived `==`)
+            let observe = |x: &T| {
+                use std::hash::Hasher;
+                let mut h = std::collections::hash_map::DefaultHasher::new();
+                x.hash(&mut h);
+                let _ = (h.finish(), x.to_string(), x.blocks_v(), x.nv(), x.cmp(x));
+            };
+            let mut answers = vec![fresh, b == a];
+            observe(&a);
+            answers.push(a == b);
+            answers.push(b == a);
+            let a2 = a.clone();
+            answers.push(a2 == b);
+            answers.push(b == a2);
+            observe(&b);
+            answers.push(a == b);
+            let b2 = b.clone();
+            answers.push(a == b2);
+            answers.push((a.cmp(&b) == std::cmp::Ordering::Equal) == fresh || !fresh);
+            // `cmp` = Equal exactly when `==`
+            if (a.cmp(&b) == std::cmp::Ordering::Equal) != fresh {
+                return Some("ok eq-unstable".to_string());
+            }
+            if answers[..8].iter().any(|x| *x != fresh) {
+                return Some("ok eq-unstable".to_string());
+            }
+            // equal values hash equal
+            if fresh {
+                use std::hash::Hasher;
+                let (mut h1, mut h2) = (std::collections::hash_map::DefaultHasher::new(), std::collections::hash_map::DefaultHasher::new());
+                a.hash(&mut h1);
+                b2.hash(&mut h2);
+                if h1.finish() != h2.finish() {
+                    return Some("ok eq-unstable".to_string());
+                }
+            }
+            format!("ok {}", show_bool(fresh))
         }
         ("next", 3) => {
             let mut l: T = mk(&parse_tab(t[2])?);
